@@ -235,12 +235,12 @@ func (p *fProv) NATSConnection() *nats.Conn                  { return p.conn }
 
 type fMetrics struct{}
 
-func (fMetrics) SetIsLeader(float64, prometheus.Labels)                   {}
-func (fMetrics) SetConnectionStatus(float64, prometheus.Labels)           {}
-func (fMetrics) IncTransitions(prometheus.Labels)                         {}
-func (fMetrics) IncFailures(prometheus.Labels)                            {}
-func (fMetrics) IncAcquireAttempts(prometheus.Labels)                     {}
-func (fMetrics) IncTokenValidationFailures(prometheus.Labels)             {}
+func (fMetrics) SetIsLeader(float64, prometheus.Labels)                    {}
+func (fMetrics) SetConnectionStatus(float64, prometheus.Labels)            {}
+func (fMetrics) IncTransitions(prometheus.Labels)                          {}
+func (fMetrics) IncFailures(prometheus.Labels)                             {}
+func (fMetrics) IncAcquireAttempts(prometheus.Labels)                      {}
+func (fMetrics) IncTokenValidationFailures(prometheus.Labels)              {}
 func (fMetrics) ObserveHeartbeatDuration(time.Duration, prometheus.Labels) {}
 func (fMetrics) ObserveLeaderDuration(time.Duration, prometheus.Labels)    {}
 
@@ -464,7 +464,7 @@ func RaceWorkerMain(t *testing.T, logPath string) {
 func raceSig(rep string) (sig string, lib bool) {
 	type acc struct {
 		kind, fn, file string
-		line       int
+		line           int
 	}
 	var accs []acc
 	lines := strings.Split(rep, "\n")
@@ -703,8 +703,8 @@ func c20Direct(c *CheckCtx) {
 
 func init() {
 	props["C20"] = &propDef{
-		Level: "exploration",
-		Rule:  "the program space is enumerated exhaustively: concurrent API callers on one election (quick: all unordered pairs of single calls over the 11 public methods, each call against five lifecycle two-call sequences, triples over a reduced alphabet; thorough: all pairs of two-call sequences and all triples of single calls) x five phases (fresh, leading, following, restarted, disconnected) x latency seeds, plus a serial connection-notification dispatcher and a competing instance; every program is executed free-running (real sync/atomic, -race, virtual time) and the verdict on each execution is the Go race detector's; evaluations = executions, distinct_nontrivial = distinct (phase, caller set) programs executed",
+		Level:  "exploration",
+		Rule:   "the program space is enumerated exhaustively: concurrent API callers on one election (quick: all unordered pairs of single calls over the 11 public methods, each call against five lifecycle two-call sequences, triples over a reduced alphabet; thorough: all pairs of two-call sequences and all triples of single calls) x five phases (fresh, leading, following, restarted, disconnected) x latency seeds, plus a serial connection-notification dispatcher and a competing instance; every program is executed free-running (real sync/atomic, -race, virtual time) and the verdict on each execution is the Go race detector's; evaluations = executions, distinct_nontrivial = distinct (phase, caller set) programs executed",
 		Assume: []string{"the decision step per execution is dynamic (happens-before) race detection, not enumeration of memory-model interleavings", "locks of the harness store add happens-before edges that can hide a race the real client would expose", "two connection callbacks never run concurrently (nats.go dispatches them serially)"},
 		Direct: c20Direct,
 	}
